@@ -383,23 +383,38 @@ def _faithful(ctx, prog):
     t = ctx.fn(r"gmsol_utils::instruction::InstructionAccess::to_instruction")
     if t:
         oks = [e for bb, k, e in t.exits() if k == "ok"]
-        want = "Result::Ok{0: Instruction{program_id: InstructionAccess::program_id(self), accounts: Iterator::collect(Iterator::map(InstructionAccess::accounts(self), fn:From::from)), data: [T]::to_vec(InstructionAccess::data(self))}}"
-        ok = len(oks) == 1 and str(oks[0]) == want
+        flds = H.agg_fields(oks[0], r"(^|::)Instruction$") if len(oks) == 1 else None
+        ok = flds is not None and str(flds.get("program_id")) == "InstructionAccess::program_id(self)" and \
+            re.match(r"^Iterator::collect\(Iterator::map\(InstructionAccess::accounts\(self\), fn:[A-Za-z:]*from\)\)$", str(flds.get("accounts"))) is not None and \
+            re.match(r"^(\[T\]::to_vec|ToOwned::to_owned|Vec::from)\(InstructionAccess::data\(self\)\)$|^InstructionAccess::data\(self\)$", str(flds.get("data"))) is not None
         mp = [c for c in t.calls if c.short == "Iterator::map"]
         conv = mp[0].arg_expr(1) if mp else None
         ok_conv = conv is not None and conv.k == "const" and isinstance(conv.a[-1], dict) and \
             "<anchor_lang::prelude::AccountMeta as std::convert::From<&gmsol_utils::instruction::InstructionAccount>>::from" in conv.a[-1].get("ty", "")
         ctx.ob("faithful:rebuild", ok and ok_conv, "to_instruction = Instruction{program_id(), accounts().map(AccountMeta::from).collect(), data().to_vec()}", where=t.where())
+        # Semantic fact: every store to an account meta's is_signer stores `true`, happens only under
+        # mark_executor_wallet_as_signer, and only for a meta whose pubkey == self.wallet()! — either via
+        # iter_mut().filter(pred).for_each(set) closures or via an explicit loop with an `if` in the body.
         cl = prog.closures_of(t)
-        writers = [w for c in cl for w in H.closure_writes(prog, t, c, r"is_signer$|is_writable$|pubkey$")]
-        filt = [v for c in cl for v in H.closure_view(prog, t, c) if "PartialEq::eq" in v or " Eq " in v]
-        fe = [c for c in t.calls if c.short == "Iterator::for_each"]
-        ok = writers == [("$1.is_signer", "true")] and \
-            filt in (["PartialEq::eq($1.pubkey, <InstructionAccess::wallet(self)?>)"], ["PartialEq::eq(<InstructionAccess::wallet(self)?>, $1.pubkey)"]) and len(fe) == 1 and \
-            A.has_bool_fact(A.cmp_facts(t, fe[0].bb), True, r"^mark_executor_wallet_as_signer$") and \
-            "Iterator::filter(" in str(fe[0].arg_expr(0))
-        # no store to the account metas in the body itself
-        ok = ok and not [w for w in A.field_writes(t, r"is_signer$|is_writable$|pubkey$")]
+        cw = [w for c in cl for w in H.closure_writes(prog, t, c, r"is_signer$|is_writable$|pubkey$")]
+        bw = [w for w in A.field_writes(t, r"is_signer$|is_writable$|pubkey$") if w["kind"] == "assign"]
+        WAL = "InstructionAccess::wallet(self)!"
+        if cw and not bw:
+            filt = [v.replace("?>", "!>") for c in cl for v in H.closure_view(prog, t, c) if "PartialEq::eq" in v or " Eq " in v]
+            fe = [c for c in t.calls if c.short == "Iterator::for_each"]
+            ok = cw == [("$1.is_signer", "true")] and \
+                filt in (["PartialEq::eq($1.pubkey, <InstructionAccess::wallet(self)!>)"], ["PartialEq::eq(<InstructionAccess::wallet(self)!>, $1.pubkey)"]) and len(fe) == 1 and \
+                A.has_bool_fact(A.cmp_facts(t, fe[0].bb), True, r"^mark_executor_wallet_as_signer$") and \
+                "Iterator::filter(" in str(fe[0].arg_expr(0))
+        elif bw and not cw:
+            ok = True
+            for w in bw:
+                base = H.canon_path(w["path"])
+                facts = H.canon_facts(t, w["bb"])
+                ok = ok and w["path"].endswith(".is_signer") and str(w["rv"]) == "true" and H.has_canon_bool(facts, True, r"^mark_executor_wallet_as_signer$") and \
+                    any(o == "==" and b is not None and {a, b} == {base[:-len(".is_signer")] + ".pubkey", WAL} for (o, a, b) in facts)
+        else:
+            ok = False
         ctx.ob("faithful:signer-mark", ok, "is_signer is forced to true only under mark_executor_wallet_as_signer and only for pubkey == self.wallet()?", where=t.where())
     m = ctx.fn(r"gmsol_utils::instruction::<impl std::convert::From<&'a gmsol_utils::instruction::InstructionAccount> for anchor_lang::prelude::AccountMeta>::from")
     if m:
